@@ -320,6 +320,12 @@ struct World
     if (accept >= 0)
       wb.accept_limit(accept);
     std::ostream os(&wb);
+    if (op.get("prefail") != 0)
+    {
+      // an earlier (formatted) output on this stream has failed: nothing more may be acknowledged
+      os.setstate(std::ios_base::failbit);
+      ctx.probe("write_to_failed_stream");
+    }
     bool acked = false;
     {
       sim::fault::Sut s;
@@ -328,7 +334,7 @@ struct World
     std::string const file = wb.data();
     bool const complete = file == data;
     SIM_CHECK(!acked || complete, "unacknowledged-write-reported-good", "write_chars returned true but only " + std::to_string(file.size()) + " of " + std::to_string(data.size()) + " bytes are on disk");
-    if (accept < 0)
+    if (accept < 0 && op.get("prefail") == 0)
       SIM_CHECK(acked, "write-failed-without-fault", "write_chars");
     if (!complete)
       ctx.probe("torn_write");
@@ -497,6 +503,7 @@ struct World
     sim::codecvt_ctl().reset();
     sim::codecvt_ctl().window = window;
     sim::codecvt_ctl().error_at = ferr;
+    sim::codecvt_ctl().stall_at = op.get("stall", -1);
     fcppt::optional_std_string narrow;
     {
       sim::fault::Sut s;
@@ -510,7 +517,13 @@ struct World
       ctx.probe("narrow_zero_progress_partial");
     if (utf8.size() > w.size())
       ctx.probe("encoded_longer_than_initial_buffer");
-    if (nerr)
+    if (sim::codecvt_ctl().stalled)
+    {
+      // the facet said "partial, no progress, however much room": the rest cannot be converted
+      SIM_CHECK(!narrow.has_value(), "silent-truncation", "narrow returned " + std::to_string(narrow.has_value() ? narrow.get_unsafe().size() : 0) + " of " + std::to_string(utf8.size()) + " bytes as success although the facet could not convert the rest");
+      ctx.probe("narrow_facet_stall");
+    }
+    else if (nerr)
     {
       SIM_CHECK(!narrow.has_value(), "facet-error-ignored", "narrow returned '" + hex(narrow.has_value() ? narrow.get_unsafe() : "") + "' although the facet reported an error");
       ctx.probe("narrow_facet_error");
@@ -700,8 +713,10 @@ void generate(sim::Rng &rng, sim::Plan &p, bool)
         op.set("ask", static_cast<long>(rng.below(48)));
       if (faulty)
       {
-        unsigned const f = static_cast<unsigned>(rng.below(4));
-        if (f == 0)
+        unsigned const f = static_cast<unsigned>(rng.below(5));
+        if (f == 4)
+          op.set("prefail", 1);
+        else if (f == 0)
           op.set("accept", static_cast<long>(rng.below(40)));
         else if (f == 1)
           op.set("trunc", static_cast<long>(rng.below(48)));
@@ -730,9 +745,11 @@ void generate(sim::Rng &rng, sim::Plan &p, bool)
       op = sim::Op("cvt").set("vs", vs).set("n", n);
       if (faulty)
       {
-        unsigned const f = static_cast<unsigned>(rng.below(5));
+        unsigned const f = static_cast<unsigned>(rng.below(6));
         if (f == 0)
           op.set("window", static_cast<long>(rng.range(1, 12)));
+        else if (f == 5)
+          op.set("stall", static_cast<long>(rng.below(45)));
         else if (f == 1)
           op.set("ferr", static_cast<long>(rng.below(45)));
         else if (f == 2)
